@@ -1,4 +1,6 @@
 mod asm;
+mod pbuf;
+mod ring;
 mod util;
 
 fn main() {
@@ -12,6 +14,10 @@ fn main() {
     match argv[1].as_str() {
         "asm-replay" => asm::replay(&args),
         "asm-random" => asm::random(&args),
+        "ring-replay" => ring::replay(&args),
+        "pbuf-replay" => pbuf::replay(&args),
+        "pbuf-random" => pbuf::random(&args),
+        "ring-random" => ring::random(&args),
         w => {
             eprintln!("unknown world {w}");
             std::process::exit(2);
